@@ -57,8 +57,11 @@ class WebApp:
 
     @inject(Settings)
     def queue_script(self, script_control, settings):
+        # ScriptControl holds the strings as they go into a page; the file on
+        # disk has the name the manifest gives.
         fname = join(
-            settings.get_value("script_path", "."), script_control.file_name)
+            settings.get_value("script_path", "."),
+            html.unescape(script_control.file_name))
         job = ScriptJob.from_file(fname)
         if script_control.run_background:
             self._jobs.spawn_job(job, script_control.path)
@@ -117,7 +120,8 @@ class WebApp:
         return path
 
     def stop_script(self, path) -> bool:
-        return self._jobs.stop_job(path)
+        # Jobs are registered under the escaped path (ScriptControl.path).
+        return self._jobs.stop_job(html.escape(path))
 
     def stop_current(self) -> bool:
         return self._jobs.stop_current()
